@@ -280,9 +280,18 @@ var rndScalars = []any{
 
 func (g *rgen) scalar() any { return lib.Pick(g.r, rndScalars) }
 
+// typed values that random elements hold as leaves (operands only: the random paths never step into them)
+var rndTyped = []any{
+	int8(1), uint64(1) << 63, float32(1.5), gen.Int(2), gen.String("a"), gen.Bool(true), myInt(1), myStr("a"),
+	[]int{1, 2}, map[string]int{"k": 1}, gen.Array{gen.Int(1)}, ptrA, [2]int{1, 2}, ifaceStruct{X: []int{1}}, ifaceStruct{X: int64(1)},
+}
+
 func (g *rgen) value(depth int) any {
 	switch n := g.r.Intn(12); {
 	case n < 9 || depth <= 0:
+		if g.r.Intn(12) == 0 {
+			return lib.Pick(g.r, rndTyped)
+		}
 		return g.scalar()
 	case n < 11:
 		k := g.r.Intn(4)
